@@ -20,6 +20,20 @@ def _h(*parts):
     return hashlib.blake2b(repr(parts).encode(), digest_size=8).hexdigest()
 
 
+def tkey(t):
+    """string key of a pySMT type that tells a user sort from a built-in sort of the same name"""
+    try:
+        if t.is_function_type():
+            return "(%s)->%s" % (",".join(tkey(a) for a in t.param_types), tkey(t.return_type))
+        if t.is_array_type():
+            return "Array{%s,%s}" % (tkey(t.index_type), tkey(t.elem_type))
+        if t.is_custom_type():
+            return "user:%s/%d(%s)" % (t.basename, t.arity, ",".join(tkey(a) for a in (t.args or ())))
+    except AttributeError:
+        pass
+    return str(t)
+
+
 class Canon(object):
     def __init__(self, user_names=None, ac=True):
         """user_names: set of symbol names that are NOT fresh; every other symbol is
@@ -32,7 +46,7 @@ class Canon(object):
         name = f.symbol_name()
         if self.user_names is not None and name not in self.user_names:
             name = "FRESH"
-        return _h("sym", name, str(f.symbol_type()))
+        return _h("sym", name, tkey(f.symbol_type()))
 
     def key(self, formula):
         memo = self.memo
@@ -82,7 +96,7 @@ class Canon(object):
             elif nt in (op.BV_ZEXT, op.BV_SEXT):
                 payload = (f.bv_extend_step(),)
             elif nt == op.ARRAY_VALUE:
-                payload = (str(f.array_value_index_type()),)
+                payload = (tkey(f.array_value_index_type()),)
                 pairs = sorted(zip(ks[1::2], ks[2::2]))
                 ks = [ks[0]] + [x for p in pairs for x in p]
             elif nt >= op.ALL_TYPES[-1] + 1:
@@ -124,7 +138,7 @@ class Canon(object):
         if isinstance(x, (list, tuple)):
             return ["seq"] + [self.result(y) for y in x]
         if isinstance(x, PySMTType):
-            return "T:" + str(x)
+            return "T:" + tkey(x)
         if isinstance(x, (bool, int, str)) or x is None:
             return x
         if isinstance(x, Fraction):
